@@ -21,6 +21,7 @@ fn main() {
         "types" => {}
         "bytes" => suite_bytes::run(&reg, &suite_bytes::Cfg { seed, thorough, only, scale }, &mut out),
         "emplace" => suite_emplace::run(&reg, &gen_types::defaults(), &suite_emplace::Cfg { seed, thorough, only, scale }, &mut out),
+        "ops" => suite_ops::run(&reg, &suite_ops::Cfg { seed, thorough, only, scale }, &mut out),
         "exec" => {
             // lines on stdin: left-hand sides (anything after " => " is ignored)
             let mut ar = arena::Arena::new(1);
@@ -41,6 +42,7 @@ fn main() {
                 match lhs.split(' ').next().unwrap_or("") {
                     "B" => suite_bytes::exec_line(&reg, &mut ar, &mut ar2, &lhs, &mut out),
                     "E" | "F" | "A" => suite_emplace::exec_line(&reg, &mut ar, &lhs, &mut out),
+                    "O" => suite_ops::exec_line(&reg, &mut ar, &lhs, &mut out),
                     _ => {}
                 }
             }
